@@ -25,4 +25,11 @@ size_t vf_tm_clear(VTimer *t) { return t->VTimer::clear(); }
 int vf_tm_run(VTimer *t) { return t->VTimer::operator()(); }
 void vf_tm_stop(VTimer *t) { t->cancellation_token().request_stop(); }
 size_t vf_tm_pending(VTimer *t) { return t->_event_queue.size(); }
+// observe the i-th slot of the queue's underlying vector: callback id, due time (ns), interval, repeat flag
+int vf_tm_event(VTimer *t, size_t i, long *due, unsigned *ms, bool *repeat)
+{
+	const TimerEvent<Mon>& e(t->_event_queue.c[i]);
+	*due = e._t.get_ticks(); *ms = e._intervalMS; *repeat = e._repeat;
+	return e._callback == &Mon::cb0 ? 0 : e._callback == &Mon::cb1 ? 1 : e._callback == &Mon::cb2 ? 2 : -1;
+}
 }
